@@ -25,6 +25,7 @@ import { Set } from std.set;
 import { List } from std.list;
 import { Option } from std.option;
 import { Pair, Triple } from std.tuples;
+import { Result } from std.result;
 
 class Main {
   function dm(m: Map<Int, int>): Str =
@@ -73,6 +74,24 @@ class Main {
     match o {
       None -> "none",
       Some(v) -> "some " :: v.toString(),
+    }
+
+  function opair(o: Option<Pair<int, int>>): Str =
+    match o {
+      None -> "none",
+      Some(p) -> "some " :: Str.fromInt(p.first()) :: "," :: Str.fromInt(p.second()),
+    }
+
+  function dr(r: Result<int, int>): Str =
+    match r {
+      Ok(v) -> "ok " :: Str.fromInt(v),
+      Error(e) -> "err " :: Str.fromInt(e),
+    }
+
+  function dru(r: Result<unit, int>): Str =
+    match r {
+      Ok(_) -> "ok unit",
+      Error(e) -> "err " :: Str.fromInt(e),
     }
 
   function okv(o: Option<Pair<Int, int>>): Str =
@@ -243,6 +262,26 @@ def gen_program(ops):
         elif op == "lfdm": out(f"Main.oi({R(t[1])}.findMap((x) -> if {pred_x(t[2], t[3])} {{ Option.Some(x % 1000 * 2) }} else {{ {NONE} }}))")
         elif op == "lbnd": store(t[1], f"{R(t[2])}.bind((x) -> List.of(x % 1000 + {lit(t[3])}).cons(x))", "dl")
         elif op == "lflt": store(t[1], f"List.flatten(List.of({R(t[4])}).cons({R(t[3])}).cons({R(t[2])}))", "dl")
+        elif op == "liter":
+            body.append(f'    let _ = {R(t[1])}.iter((x) -> Process.println("~" :: Str.fromInt(x)));')
+            out('"end"')
+        elif op in ("optx", "resx"):
+            o = f"ov{n}"
+            body.append(f"    let {o} = Option.Some({lit(t[1])}).filter((x) -> {pred_x(t[2], t[3])});")
+            if op == "optx":
+                body.append(f'    let _ = {o}.iter((x) -> Process.println("~" :: Str.fromInt(x)));')
+                out(f'Main.oi({o}.map((x) -> x + 1)) :: "|" :: Main.oi({o}.filter((x) -> x % 2 != 0)) :: "|" :: '
+                    f'Main.oi({o}.bind((x) -> if x % 2 != 0 {{ Option.Some(x * 2) }} else {{ {NONE} }})) :: "|" :: '
+                    f'Str.fromInt({o}.valueMap(-1, (x) -> x + {lit(t[3])})) :: "|" :: Main.ob({o}.isSome()) :: Main.ob({o}.isNone()) :: "|" :: '
+                    f'Main.opair(Option.both({o}, {o}.map((x) -> x + 1))) :: "|" :: Main.oi({o}.tryUnwrap())')
+            else:
+                r = f"rv{n}"
+                body.append(f"    let {r} = Result.fromOption({o}, {lit(t[3])});")
+                body.append(f'    let _ = {r}.iter((x) -> Process.println("~" :: Str.fromInt(x)));')
+                body.append(f'    let _ = {r}.iterError((x) -> Process.println("~" :: Str.fromInt(x)));')
+                out(f'Main.dr({r}) :: "|" :: Main.ob({r}.isOk()) :: Main.ob({r}.isError()) :: "|" :: Main.oi({r}.ok()) :: "|" :: '
+                    f'Main.dr({r}.map((x) -> x + 1)) :: "|" :: Main.dr({r}.mapError((x) -> x + 1)) :: "|" :: '
+                    f'Main.dru({r}.ignore()) :: "|" :: Main.oi({r}.tryUnwrap())')
         else:
             raise ValueError("unknown op " + line)
     return PRELUDE + "  function main(): unit = {\n" + "\n".join(body) + "\n  }\n}\n"
@@ -532,6 +571,22 @@ class Spec:
             for x in l[t[2]]: out += [x, tmod(x, 1000) + I(t[3])]
             return [("l", t[1], out)]
         if op == "lflt": return [("l", t[1], l[t[2]] + l[t[3]] + l[t[4]])]
+        if op == "liter": return [("ans", "".join(f"{x};" for x in l[t[1]]) + "end")]
+        if op in ("optx", "resx"):
+            a, c = I(t[1]), I(t[3])
+            o = a if P(t[2], t[3], a) else None
+            so = fmt_opt
+            if op == "optx":
+                pre = "" if o is None else f"{o};"
+                both = "none" if o is None else f"some {o},{o + 1}"
+                return [("ans", pre + "|".join([so(None if o is None else o + 1), so(o if (o is not None and tmod(o, 2) != 0) else None),
+                        so(o * 2 if (o is not None and tmod(o, 2) != 0) else None), str(-1 if o is None else o + c),
+                        fmt_b(o is not None) + fmt_b(o is None), both, so(o)]))]
+            sr = lambda ok, v: (f"ok {v}" if ok else f"err {v}")
+            ok = o is not None
+            pre = f"{o};" if ok else f"{c};"
+            return [("ans", pre + "|".join([sr(ok, o if ok else c), fmt_b(ok) + fmt_b(not ok), so(o), sr(ok, o + 1 if ok else c),
+                    sr(ok, o if ok else c + 1), ("ok unit" if ok else f"err {c}"), so(o)]))]
         raise ValueError(line)
 
 
@@ -725,7 +780,8 @@ def gen_history(rng, nops, mode, weights):
         elif op in ("lrev", "lrst"): ops.append(f"{op} {r('l')} {r('l')}")
         elif op in ("lfil", "lfmp"): ops.append(f"{op} {r('l')} {r('l')} {px()} {c if mode != 2 else k}")
         elif op == "lmap": ops.append(f"lmap {r('l')} {r('l')} {rng.range(-9, 9)}")
-        elif op in ("llen", "lfst", "lfold", "lfdr"): ops.append(f"{op} {r('l')}")
+        elif op in ("llen", "lfst", "lfold", "lfdr", "liter"): ops.append(f"{op} {r('l')}")
+        elif op in ("optx", "resx"): ops.append(f"{op} {rng.range(-300, 300)} {px()} {rng.range(-10, 10)}")
         elif op == "lhas": ops.append(f"lhas {r('l')} {k}")
         elif op in ("lall", "lany", "lfnd", "lfdm"): ops.append(f"{op} {r('l')} {px()} {c if mode != 2 else k}")
         elif op == "lbnd": ops.append(f"lbnd {r('l')} {r('l')} {rng.range(-9, 9)}")
@@ -741,7 +797,7 @@ W_SET = [("sins", 22), ("sbulk", 6), ("srem", 12), ("shas", 6), ("suni", 5), ("s
          ("sels", 2), ("sfrl", 2), ("sall", 1), ("sany", 1), ("smap", 2), ("lcons", 4)]
 W_LIST = [("lcons", 20), ("lof", 2), ("lapp", 6), ("lrev", 5), ("lrap", 4), ("lfil", 5), ("lmap", 4), ("lfmp", 4),
           ("llen", 4), ("lfst", 3), ("lrst", 4), ("lfold", 4), ("lfdr", 4), ("lhas", 3), ("lall", 2), ("lany", 2),
-          ("lfnd", 3), ("lfdm", 3), ("lbnd", 2), ("lflt", 3), ("sfrl", 2), ("sels", 2), ("sins", 3), ("mkeys", 1), ("mins", 3)]
+          ("lfnd", 3), ("lfdm", 3), ("liter", 3), ("optx", 4), ("resx", 4), ("lbnd", 2), ("lflt", 3), ("sfrl", 2), ("sels", 2), ("sins", 3), ("mkeys", 1), ("mins", 3)]
 W_MIX = W_MAP + W_SET + W_LIST
 
 
@@ -838,6 +894,31 @@ def canon_impl(h, run):
             out.append("<" + end + ">")
         out += ["dead"] * (len(h) - len(out))
     return out
+
+
+def run_src_leg(histories, stats):
+    """Third leg named by the property: the same driver programs evaluated by the Lean reference
+    semantics of samlang source (builder-SRC's `SamVerif.Source.eval` through vlib/srceval.py).
+    Isolated: any import/build/run problem of that foreign component only marks the leg unavailable.
+    Returns a list (one entry per history) of folded output lines + end, or None."""
+    try:
+        from . import srceval
+        srceval.build()
+        set_sam = open(os.path.join(common.REPO, "std", "set.sam")).read()
+        progs = [{"sources": {"Main": gen_program(h), "std.set": set_sam}, "entry": "Main", "std": True}
+                 for h in histories]
+        outs = srceval.eval_programs(progs)
+        res = []
+        for o in outs:
+            res.append({"check": o.get("check"), "end": o.get("end"), "flags": o.get("flags") or [],
+                        "lines": fold_iter(o.get("lines") or []), "msg": (o.get("msg") or "")[:300]})
+        return res
+    except Exception as ex:   # foreign component: never let it break this check
+        stats["src_leg_error"] = repr(ex)[:300]
+        return None
+
+
+SRC_EXCLUDING_FLAGS = {"ovf", "vec31", "cap", "toint", "negdiv"}
 
 
 def examine(ctx, h, res, model, label, stats, report=True):
@@ -942,6 +1023,33 @@ def run(ctx):
     hist = steer(hist, stats)
     models = run_model(hist)
     _, answers = run_impl(hist)
+    src = run_src_leg(hist, stats)
+    src_ready = os.path.exists(os.path.join(common.VERIF, "reports", "SRC.md"))
+    src_stats = {"programs": 0, "agree": 0, "excluded_by_flag": 0, "disagree": 0, "lines_compared": 0}
+    if src is not None:
+        for h, r, so in zip(hist, answers, src):
+            if r["compile"] != "ok" or r["wasm"]["end"].startswith("no-node"):
+                continue
+            src_stats["programs"] += 1
+            if set(so["flags"]) & SRC_EXCLUDING_FLAGS or so["check"] != "ok":
+                src_stats["excluded_by_flag"] += 1
+                continue
+            wl = r["wasm"]["lines"][:len(h)]
+            sl = so["lines"][:len(h)]
+            src_stats["lines_compared"] += len(wl)
+            if sl == wl and so["end"] == r["wasm"]["end"]:
+                src_stats["agree"] += 1
+            else:
+                src_stats["disagree"] += 1
+                i = common.first_diff(sl, wl)
+                i = i if i is not None else max(0, min(len(sl), len(wl)) - 1)
+                what = (f"reference semantics (Source.eval) and compiled program differ at `{h[min(i, len(h) - 1)]}`: "
+                        f"source `{(sl[i] if i < len(sl) else '<missing>')[:120]}` (end={so['end']}) "
+                        f"wasm `{(wl[i] if i < len(wl) else '<missing>')[:120]}` (end={r['wasm']['end']})")
+                if src_ready and not ctx.violations:
+                    ctx.violation(what, {"protocol": "stdops/source-eval", "ops": h, "at": i, "source_eval": so, "wasm": r["wasm"]})
+                else:
+                    src_stats.setdefault("notes", []).append(what[:300])
     opcount, known_count, evals, nontrivial, samples = {}, {}, 0, 0, []
     distinct = set()
     for h, r, m, (fam, mode) in zip(hist, answers, models, kinds):
@@ -988,6 +1096,8 @@ def run(ctx):
         "probe_hits": probe_hits, "steered_away_ops": stats.get("steered_away", 0),
         "key_ranges": {"0": "[-6,6]", "1": "[-40,40]", "2": "wide: [-(2^30-1), 2^30-1] incl. both ends (diameter < 2^31)", "3": "[-300,300]"},
         "std_header": header,
+        "source_eval_leg": (src_stats if src is not None else {"unavailable": stats.get("src_leg_error", "")}),
+        "source_eval_leg_counts_as_violation": src_ready,
         "node22": not stats.get("no_node", False),
         "pending": PENDING,
     })
@@ -1001,13 +1111,13 @@ def run(ctx):
     return ctx.finish(res, trusted=common.TRUSTED_COMMON + [
         "hand-written models Model/StdMap.lean, StdSet.lean, StdList.lean (transcriptions of std/*.sam), tied by exact comparison of every printed tree shape/answer",
         "the samlang compiler, Node 22/V8 (wasm + TS) as executors of the std source; vlib/c18.py Spec (Python dict/set/list) as the independent specification",
-        "not modelled: List.iter, std/option.sam, std/result.sam, std/tuples.sam (exercised only as part of the driver programs)",
+        "Source.eval leg: builder-SRC's Lean reference interpreter and its srcdump harness (used as a third executor, not as part of the proofs)",
     ])
 
 
-PENDING = ["Map/Set: nothing of std/map.sam, std/set.sam, std/list.sam is left unmodelled except List.iter (pure side effect)",
-           "customizedUnion / merge / Set.union / subset / Set.map keep a fuel argument in the model; the theorems show any fuel above the operand sizes suffices and the history theorems use internally computed fuel",
-           "std/option.sam, std/result.sam, std/tuples.sam: exercised by the driver programs only"]
+PENDING = ["customizedUnion / merge / Set.union / subset / Set.map keep a fuel argument in the model; the theorems show any fuel above the operand sizes suffices and the history theorems use internally computed fuel",
+           "the reference-semantics leg (Source.eval) is recorded in evidence and becomes violation-relevant once reports/SRC.md declares the interpreter ready",
+           "Tuple4 .. Tuple16 are represented by the Pair/Triple transcription (same two methods)"]
 
 def replay(ctx, path):
     common.build_harness("C18"); common.build_lean(["drv-c18"])
